@@ -292,7 +292,35 @@ def r6_errno_table(ctx):
     return out
 
 
+def r7_invalid_arguments_are_einval(ctx):
+    """'EINVAL for invalid arguments': every argument check of the C layer (negative descriptor, NULL path, unknown
+    procfs base, invalid S_IFMT) answers with ErrorImpl::InvalidArgument, and the C layer never fabricates an errno
+    of its own (an OsError built from a constant would surface as that errno instead)."""
+    F = ctx.facts
+    out = []
+    from .c17 import r1_fd_params, r2_path_params, r4_no_rust_enums
+    from .c14 import _c_mknod
+    for fn, keys in ((r1_fd_params, ("try_as_borrowed_fd:guard",)), (r2_path_params, ("parse_path:null",)), (r4_no_rust_enums, ("CProcfsBase:conversion",)),
+                     (_c_mknod, ("pathrs_inroot_mknod:otherwise",))):
+        for i in fn(ctx):
+            if i.key in keys:
+                i.rule = "C16.R7"
+                out.append(i)
+    fab = []
+    for b in F.fn_bodies():
+        if not b.file.startswith("src/capi/"):
+            continue
+        for t in b.calls("std::io::Error::from_raw_os_error", "rustix::io::Errno::from_raw_os_error"):
+            fab.append(t)
+    if fab:
+        out.append(violated("C16.R7", "capi:fabricated-errno", fab[0].where(), "the C layer builds an OS error from a constant errno (%d site(s)): the caller sees that errno instead of EINVAL/the failing system call's" % len(fab)))
+    else:
+        out.append(holds("C16.R7", "capi:fabricated-errno", "", "no errno is fabricated in src/capi"))
+    return out
+
+
 RULES = [
+    ("C16.R7", r7_invalid_arguments_are_einval, 5, True),
     ("C16.R1", r1_who_touches, 3, True),
     ("C16.R2", r2_one_critical_section, 2, True),
     ("C16.R3", r3_id_range, 1, True),
